@@ -319,3 +319,21 @@ pub fn ambiguous_history(spec: &crate::spec::SpecTable, ops: &[WOp]) -> bool {
     }
     false
 }
+
+/// Tags written by `ops` plus the Ends that end of input implies for masters still open.
+pub fn expected_with_eof_ends(ops: &[WOp]) -> Vec<TagV> {
+    let mut t = written_tags(ops);
+    let mut open: Vec<u64> = Vec::new();
+    for x in &t {
+        if x.is_start() {
+            open.push(x.id);
+        } else if x.is_end() {
+            open.pop();
+        }
+    }
+    while let Some(id) = open.pop() {
+        t.push(TagV::new(id, Val::End));
+    }
+    t
+}
+
